@@ -10,3 +10,19 @@ fn warm_noop() {
     let x: u8 = kani::any();
     assert!(x as u16 <= 255);
 }
+pub(crate) mod reader;
+pub(crate) mod rdata;
+pub(crate) mod rdata_eq;
+pub(crate) mod catalog;
+pub(crate) mod zone;
+pub(crate) mod rrl;
+pub(crate) mod writer;
+pub(crate) mod codes;
+pub(crate) mod names;
+pub(crate) mod thread;
+pub(crate) mod zones_reload;
+pub(crate) mod validation;
+pub(crate) mod zone_file;
+pub(crate) mod server;
+pub(crate) mod query;
+pub(crate) mod tsig;
